@@ -176,7 +176,7 @@ func (c *Client) Authenticate(ctx context.Context, req *AuthRequest) (*AuthRespo
 	// Calling/Called Station IDs
 	if req.CallingID != "" {
 		rfc2865.CallingStationID_SetString(packet, req.CallingID)
-	} else if req.MAC != nil {
+	} else if len(req.MAC) > 0 {
 		rfc2865.CallingStationID_SetString(packet, formatMAC(req.MAC))
 	}
 	if req.CalledID != "" {
@@ -274,7 +274,7 @@ func (c *Client) SendAccounting(ctx context.Context, req *AcctRequest) error {
 	rfc2865.NASIdentifier_SetString(packet, c.nasID)
 	rfc2865.NASPort_Set(packet, rfc2865.NASPort(req.NASPort))
 
-	if req.MAC != nil {
+	if len(req.MAC) > 0 {
 		rfc2865.CallingStationID_SetString(packet, formatMAC(req.MAC))
 	}
 
@@ -426,15 +426,15 @@ func addMessageAuthenticator(packet *radius.Packet, secret []byte) error {
 	return nil
 }
 
-// formatMAC formats a MAC address for RADIUS (uppercase with dashes)
+// formatMAC formats a hardware address for RADIUS (uppercase with dashes).
+// Every byte is written: the address length comes from the client (DHCP hlen)
+// and need not be 6.
 func formatMAC(mac net.HardwareAddr) string {
-	if len(mac) < 6 {
-		// Not an Ethernet address (e.g. a DHCP client that sent hlen < 6): use the
-		// generic form instead of indexing past the end.
-		return strings.ToUpper(strings.ReplaceAll(mac.String(), ":", "-"))
+	parts := make([]string, len(mac))
+	for i, b := range mac {
+		parts[i] = fmt.Sprintf("%02X", b)
 	}
-	return fmt.Sprintf("%02X-%02X-%02X-%02X-%02X-%02X",
-		mac[0], mac[1], mac[2], mac[3], mac[4], mac[5])
+	return strings.Join(parts, "-")
 }
 
 // TerminateCause constants
